@@ -101,6 +101,8 @@ class Interposer:
         self.perm_total = 0
         self.legal_fires: dict[str, int] = {}
         self.untracked: list[str] = []
+        self.std_sinks: Any = None  # (stdout PipeSink, stderr PipeSink) while a process runs
+        self.std_source: Any = None
 
     # -- path helpers -------------------------------------------------------------------
 
@@ -263,6 +265,9 @@ class Interposer:
             return fd
 
         def os_write(fd: int, data: Any) -> int:
+            if ip.active and fd in (1, 2) and ip.std_sinks is not None:
+                # code that bypasses sys.stdout and writes to the descriptor: same simulated pipe
+                return ip.std_sinks[fd - 1].write(data)
             p = ip.fds.get(fd) if ip.active else None
             if p is None:
                 return _REAL["write"](fd, data)
@@ -278,6 +283,14 @@ class Interposer:
                 o = ip.begin("close-w", [p], via="os.close")
                 ip.end(o)
 
+        def os_read(fd: int, n: int) -> bytes:
+            if ip.active and fd == 0 and ip.std_source is not None:
+                buf = bytearray(n)
+                got = ip.std_source.readinto(buf)
+                return bytes(buf[:got])
+            return _REAL["read"](fd, n)
+
+        os.read = os_read  # type: ignore[assignment]
         os.open = os_open  # type: ignore[assignment]
         os.write = os_write  # type: ignore[assignment]
         os.close = os_close  # type: ignore[assignment]
@@ -312,7 +325,7 @@ class Interposer:
         self.active = False
         io.open = _real_io_open  # type: ignore[assignment]
         builtins.open = _real_builtins_open  # type: ignore[assignment]
-        for n in ("open", "close", "write", "replace", "rename", "link", "symlink", "unlink", "remove", "rmdir", "mkdir", "truncate", "chmod", "utime", "stat", "lstat", "scandir", "listdir", "readlink", "access"):
+        for n in ("open", "close", "read", "write", "replace", "rename", "link", "symlink", "unlink", "remove", "rmdir", "mkdir", "truncate", "chmod", "utime", "stat", "lstat", "scandir", "listdir", "readlink", "access"):
             setattr(os, n, _REAL[n])
         try:
             import shutil
@@ -735,6 +748,8 @@ def run_process(ip: Interposer, fn: Any, stdin_bytes: bytes = b"", cwd: str | No
     stdin, stdout, stderr, out_sink, err_sink = make_streams(ip, stdin_bytes)
     if cwd is not None:
         _REAL["chdir"](cwd)
+    ip.std_sinks = (out_sink, err_sink)
+    ip.std_source = stdin.buffer.raw
     ip.install()
     sys.stdin, sys.stdout, sys.stderr = stdin, stdout, stderr
     try:
@@ -836,6 +851,11 @@ def build_tree(root: str, spec: dict[str, Any]) -> None:
             os.makedirs(full, exist_ok=True)
         elif "l" in ent:
             _REAL["symlink"](ent["l"], full)
+        elif "hl" in ent:
+            continue
         else:
             with _real_io_open(full, "wb") as f:
                 f.write(ent["f"])
+    for rel, ent in spec.items():
+        if "hl" in ent:  # hard link to another file of the spec
+            _REAL["link"](os.path.join(root, ent["hl"]), os.path.join(root, rel))
